@@ -335,8 +335,9 @@ Proof.
   intros named u d d' from to H Hf Hf'. unfold delta_repaired.
   pose proof (find_sim named u d d' from H) as F.
   destruct (find_node d from) as [f|] eqn:Ef, (find_node d' from) as [f'|] eqn:Ef'; try tauto.
-  destruct F as (Hn & Hin & Hin'). pose proof (node_sim_vis named u d f f' Hf Hin Hn) as (Hc & _).
-  rewrite <- Hc. destruct (can_see_any named u (rv_chans (n_rev f))) eqn:E; [|reflexivity].
+  destruct F as (Hn & Hin & Hin'). pose proof (node_sim_vis named u d f f' Hf Hin Hn) as (Hc & Hd & Hr & _).
+  rewrite <- Hc, <- Hd, <- Hr. destruct (rv_removed (n_rev f)); [reflexivity|]. destruct (rv_deleted (n_rev f)); [reflexivity|].
+  destruct (can_see_any named u (rv_chans (n_rev f))) eqn:E; [|reflexivity].
   assert (Hok : delta_source_ok named u (KDelta from to) (Some d)).
   { cbn [delta_source_ok]. rewrite Ef. unfold authorised. rewrite <- (Hf f Hin). exact E. }
   pose proof (respond_noninterference named u (KDelta from to) (Some d) (Some d') (conj H (conj Hf Hf')) Hok) as R.
@@ -457,5 +458,5 @@ Theorem prove_repaired_gate : forall named u pre v3 legacy k,
              can_see_any named u (rv_chans rv) = true /\ rv_removed rv = false /\ rv_body rv <> None.
 Proof.
   intros named u pre v3 legacy k c H. apply (attachment_gate_trace named u pre k). cbn [gate_step]. fold c.
-  unfold prove_serves_repaired in H. rewrite H. reflexivity.
+  unfold prove_serves_repaired in H. apply andb_true_iff in H. destruct H as [_ H]. rewrite H. reflexivity.
 Qed.
